@@ -13,7 +13,10 @@ def chains_for(ctx, thorough, needfam="", fams=None):
     if thorough:
         deco2 = sem.enum_chains(ctx, 2, semgen.DECORATIONS, maxdeco=1, tag="k2deco", needfam=needfam, fams=fams)
         plain3 = sem.enum_chains(ctx, 3, ["plain"], maxdeco=0, tag="k3plain", needfam=needfam, fams=fams)
-        chains |= {tuple(c) for c in deco2} | {tuple(c) for c in plain3}
+        p3 = sorted({tuple(c) for c in plain3} - chains)
+        rnd0 = random.Random(ctx.seed + 17)
+        rnd0.shuffle(p3)
+        chains |= {tuple(c) for c in deco2} | set(p3[:8000])
     exhaustive = len(chains)
     simk = 5
     sim = sem.enum_chains(ctx, simk, semgen.DECORATIONS, maxdeco=2, simulate=(4000 if thorough else 500),
